@@ -25,6 +25,8 @@ type c17Req struct {
 	Conc  int      `json:"conc"` // 0/1 sequential, >1 that many goroutines sharing the n calls
 	Input []string `json:"input"`
 	Basm  string   `json:"basm,omitempty"`
+	// fitness: the object the expectation names (default o0); an object the machine does not have makes the call fail early
+	ExpObj string `json:"expobj,omitempty"`
 	// opcode -> delay in clocks -> probability; one SimDelays object is built from it and shared by all the calls
 	Delays map[string]map[string]float32 `json:"delays,omitempty"`
 }
@@ -159,7 +161,11 @@ func init() {
 					for i, v := range q.Input {
 						in.Add("absolute:0:set:i" + itoa(i) + ":" + v)
 					}
-					exp.Add("absolute:10:set:o0:0")
+					obj := q.ExpObj
+					if obj == "" {
+						obj = "o0"
+					}
+					exp.Add("absolute:10:set:" + obj + ":0")
 					var e error
 					_, e = bm.Fitness_default(in, exp, 20)
 					if e != nil {
